@@ -44,7 +44,7 @@ def truncate(vc):
     vc.must_fail('selfcheck/identity', r == x)
 
 
-@harness('C08', 'rotl64', functions=[MM + 'rotl64'])
+@harness('C08', 'rotl64', functions=[MM + 'rotl64'], native='contracts.native.c08:replay_helpers')
 def rotl(vc):
     """ensures low64(rotl64(x, r)) == rotate-left of low64(x) for the rotation counts used (27, 31, 33), any int x"""
     x = SLow(z3.BitVec('x', 64))
@@ -54,7 +54,7 @@ def rotl(vc):
     vc.must_fail('selfcheck/rotl-is-shift', sym.SBool(vc.call(MM + 'rotl64', x, 31).t == (x.t << 31)))
 
 
-@harness('C08', 'fmix', functions=[MM + 'fmix'])
+@harness('C08', 'fmix', functions=[MM + 'fmix'], native='contracts.native.c08:replay_helpers')
 def fmix(vc):
     """ensures low64(fmix(k)) == MurmurHash.fmix(low64(k))"""
     k = SLow(z3.BitVec('k', 64))
